@@ -87,7 +87,6 @@ REFUSED = {
     "any over a list value": "def f(d, x, o):\n    if any(x.split()):\n        return 'y'\n    return x\n",
     "max of three": "def f(d, x, o):\n    n = max(1, 2, 3)\n    if n == 3:\n        return 'y'\n    return x\n",
     "max of strings": "def f(d, x, o):\n    return max(x, 'a')\n",
-    "split with a separator": "def f(d, x, o):\n    if x.split(','):\n        return 'y'\n    return x\n",
     "startswith of a tuple": "def f(d, x, o):\n    if x.startswith(('a', 'b')):\n        return 'y'\n    return x\n",
     "len of a string": "def f(d, x, o):\n    if len(x) == 1:\n        return 'y'\n    return x\n",
     "shadowed builtin": "def f(d, x, o):\n    len = 'a'\n    if len(x.split()) == 1:\n        return 'y'\n    return x\n",
@@ -128,6 +127,9 @@ REFUSED = {
     "call atom with a wrongly typed argument": "def f(d, x, o):\n    if x == 'b':\n        raise ValueError(f'bad {x}')\n    if num(1) == 1:\n        return 'y'\n    return x\n",
     "action used as a value": "def f(d, x, o):\n    if x == 'b':\n        raise ValueError(f'bad {x}')\n    y = act(x)\n    if y == 'a':\n        return 'y'\n    return x\n",
     "tuple assignment from a translated value": "def f(d, x, o):\n    a, b = x, x\n    return a\n",
+    "tuple assignment from a list without a declared error": "def f(d, x, o):\n    a, b = x.split()\n    return a\n",
+    "replace by a non-empty string": "def f(d, x, o):\n    return x.replace('a', 'b')\n",
+    "split at a longer separator": "def f(d, x, o):\n    if x.split('ab'):\n        return 'y'\n    return x\n",
     "tuple assignment inside a branch": "def f(d, x, o):\n    if x == 'a':\n        a, b = x.partition(':')\n    return x\n",
     "return None in a function with a value": "def f(d, x, o):\n    if x == 'a':\n        return None\n    return x\n",
     "attribute of a string": "def f(d, x, o):\n    return x.real\n",
@@ -254,6 +256,8 @@ def g(x, l, n):
             out.append(w + "!")
         else:
             out += [w, "k"]
+    head, tail = x.replace("z", "").split("b")
+    out += [head, tail]
     return (kind, m, flag and not has, out)
 '''
 
@@ -262,10 +266,13 @@ SPEC2 = pygen.Spec("g", [("x", "String"), ("l", "List String"), ("n", "Int")],
                    ret=("tuple", ("str", "int", "bool", "slist")), monad="except",
                    raises=[("ValueError", "negative {} for", "Err.negativeTries"), ("RuntimeError", "too big", "Err.runtimeError")],
                    ignored_calls={"logging.debug", "logging.info"}, transparent_with={"lock"}, local_types={"out": "slist"},
-                   prelude=["def pyStartsWith (s p : String) : Bool := isPrefixL p.toList s.toList"])
+                   unpack_error="Err.negativeTries",
+                   prelude=["def pyStartsWith (s p : String) : Bool := isPrefixL p.toList s.toList",
+                            "def pyRemoveChar (c : Char) (s : String) : String := String.ofList (s.toList.filter (· != c))"])
 
 ACCEPTED2_LEAN = [
     'def pyStartsWith (s p : String) : Bool := isPrefixL p.toList s.toList',
+    'def pyRemoveChar (c : Char) (s : String) : String := String.ofList (s.toList.filter (· != c))',
     '',
     'def g (x : String) (l : List String) (n : Int) : Except Err (String × Int × Bool × List String) := do',
     '  let mut words : List String := (splitWs x)',
@@ -301,6 +308,14 @@ ACCEPTED2_LEAN = [
     '  let mut picked : List String := (let pyOrLeft : List String := words; if pyOrLeft.isEmpty then l else pyOrLeft)',
     '  let mut out : List String := []',
     '  out := picked.foldl (fun out w => (if (!(["a", "b"].contains w)) then (out ++ [(w ++ "!")]) else (out ++ [w, "k"]))) out',
+    '  let mut head : String := ""',
+    '  let mut tail : String := ""',
+    "  match (splitChar 'b' (pyRemoveChar 'z' x)) with",
+    '  | [pyPart1_1, pyPart1_2] =>',
+    '    head := pyPart1_1',
+    '    tail := pyPart1_2',
+    '  | _ => throw Err.negativeTries',
+    '  out := (out ++ [head, tail])',
     '  return (kind, m, (flag && (!has)), out)']
 
 
@@ -518,7 +533,7 @@ def main():
             bad.append("unknown refusal " + what)
     tree = ast.parse(ACCEPTED2_SRC)
     got2 = pygen.translate(pygen.find_function(tree, "g"), SPEC2, pygen.module_constants(tree))
-    got2 = got2[:got2.index("", 2)]
+    got2 = got2[:got2.index("", 3)]
     if got2 != ACCEPTED2_LEAN:
         bad.append("unexpected translation of g:\n" + "\n".join(got2))
     tree = ast.parse(ACCEPTED3_SRC)
